@@ -85,7 +85,7 @@ def one(sid):
 
 
 def rerun(ids):
-    all_ids = sorted(x for x in os.listdir(SEEDED) if os.path.isdir(os.path.join(SEEDED, x)))
+    all_ids = sorted(x for x in os.listdir(SEEDED) if x[:1] == "C" and os.path.isdir(os.path.join(SEEDED, x)))
     ids = [x for x in all_ids if not ids or x in ids or x.split("-")[0] in ids]
     with ThreadPoolExecutor(max_workers=int(os.environ.get("SEEDED_JOBS", "3"))) as ex:
         list(ex.map(one, ids))
@@ -110,8 +110,8 @@ def readme(all_ids):
 Each directory holds `patch.diff` (applies to /repo HEAD), `demo.py` (fails with the change, passes without) and `meta.json`.
 All were written by sub-agents that saw only the text of one property and a scratch worktree (ids -1, -2: round 1; -3..-5: round 2 and -6..-8:
 round 3, where the agents were asked for changes that are hard to notice and were told which changes were already known;
--9..-11: round 4 and -12..-14: round 5, realistic regressions of the kind refactoring, modernising, performance work and data
-updates produce).  Each was confirmed with
+-9..-11: round 4, -12..-14: round 5 and -15..-17: round 6, realistic regressions of the kind refactoring, modernising, performance
+work and data updates produce).  Each was confirmed with
 `harness/mutant.py confirm` (42 tests pass with the change; the demonstration fails with it and passes on the clean tree) and run against
 the property's check with `harness/mutant.py run` (scratch worktree via `PT_REPO`, /repo itself untouched).  `harness/seeded.py rerun`
 repeats all of that against the current checks and rewrites this file.
@@ -131,6 +131,6 @@ if __name__ == "__main__":
     if sys.argv[1] == "import":
         import_round(sys.argv[2], int(sys.argv[3]), sys.argv[4] if len(sys.argv) > 4 else None, sys.argv[5] if len(sys.argv) > 5 else None)
     elif sys.argv[1] == "readme":
-        readme(sorted(x for x in os.listdir(SEEDED) if os.path.isdir(os.path.join(SEEDED, x))))
+        readme(sorted(x for x in os.listdir(SEEDED) if x[:1] == "C" and os.path.isdir(os.path.join(SEEDED, x))))
     else:
         rerun(sys.argv[2:])
